@@ -72,7 +72,14 @@ func (x *wideCtx) miss4Op(op Op, k **chainkit.Kit) bool {
 			unlockDir()
 			s.mu.Lock()
 			s.saveAct, s.started = false, s.cnt["utxo.save:begin"]
+			opIdx, nsub := s.opIdx, s.nsub
 			s.mu.Unlock()
+			if x.w.CloseCap {
+				cd := closedDir{Dir: fmt.Sprintf("%s/%s/closed%d/", filepathDir(x.wr.Snaps), "inhist", len(x.wr.Closed)), Pre: pre, Label: "clean-close-inside-history", OpIdx: opIdx, NSub: nsub, ClientOnly: true, Reapply: op.Parent != ""}
+				if copyTree(x.wr.Dir, cd.Dir) == nil {
+					x.wr.Closed = append(x.wr.Closed, cd)
+				}
+			}
 			lockDir(x.wr.Dir)
 			kc, err := chainkit.New(chainkit.Opts{Dir: x.wr.Dir, KeepDir: true, GenesisTime: genesisTime, BlockDBOpts: blockDBOpts(x.w.MaxDat),
 				ChainOpts: &chain.NewChanOpts{DoNotRescan: true}}, vlib.NewRng(7))
@@ -80,11 +87,25 @@ func (x *wideCtx) miss4Op(op Op, k **chainkit.Kit) bool {
 				panic(err)
 			}
 			*k = kc
-			if !x.restartCheck("client-mode restart (NewChainExt)", pre, stateOf(kc.Ch)) {
+			post := stateOf(kc.Ch)
+			if op.Name != "" && (pre.Tip != x.wr.Hash[op.Name] || post.Tip != x.wr.Hash[op.Name]) {
+				x.wr.RestartDiff = fmt.Sprintf("client-mode restart (NewChainExt): before the clean shutdown: %s; after the restart: %s; expected before and after: block %s (%s)", stateStr(pre), stateStr(post), op.Name, x.wr.Hash[op.Name][:16])
+				x.wr.Err = "clean shutdown + restart inside the history does not come up at the expected block: " + x.wr.RestartDiff
+				return
+			}
+			if !x.restartCheck("client-mode restart (NewChainExt)", pre, post) {
 				return
 			}
 			if res := clientRecover(kc.Ch); strings.HasPrefix(res, "panic") {
 				panic("recovery loop: " + res)
+			}
+			if op.Parent != "" {
+				// blocks undone by the operator are still on disk: the client's recovery loop re-applies them
+				if st := stateOf(kc.Ch); st.Tip != x.wr.Hash[op.Parent] {
+					x.wr.RestartDiff = fmt.Sprintf("client-mode restart (after the recovery loop): %s, expected block %s (%s)", stateStr(st), op.Parent, x.wr.Hash[op.Parent][:16])
+					x.wr.Err = "the recovery loop after a clean restart does not re-apply the blocks on disk: " + x.wr.RestartDiff
+				}
+				return
 			}
 			x.restartCheck("client-mode restart (after the recovery loop)", pre, stateOf(kc.Ch))
 		}()
@@ -225,7 +246,68 @@ func closeRelation(name, kind string, n, m int, rk string) Workload {
 	return w
 }
 
+// undoOnly: snapshot at A<na> (complete: the set in memory is clean), the operator undoes n blocks (text-UI `undo`), then - with
+// NOTHING committed in between - the node is shut down cleanly: idleKind "none" = at once (Close has to write UTXO.db because
+// the set is dirty), "idle" = after an Idle that may save (LastBlockHeight - CurrentHeightOnDisk wraps around in uint32: it
+// does), "noidle" = after an Idle under UTXO_SKIP_SAVE_BLOCKS = 2^32-1 (it does not). rk "crestart": the client-mode restart
+// must come up at A<na-n> - the undo is lasting -, its recovery loop re-applies the blocks still on disk; "restart": library
+// mode re-applies them inside NewChainExt and must come up at A<na>. Then one more block, snapshot, clean shutdown.
+func undoOnly(name string, na, n int, idleKind, rk string) Workload {
+	w := Workload{Name: name, Wide: "closerel", Shape: "undo-then-clean-shutdown", CloseCap: true}
+	w.Ops = append(w.Ops, skip(0), blk("A1", "", 2, "f1"))
+	tok := []string{"c:A1"}
+	for i := 2; i <= na; i++ {
+		w.Ops = append(w.Ops, blk(fmt.Sprintf("A%d", i), fmt.Sprintf("A%d", i-1), 1, fmt.Sprintf("cb%d", i)))
+		tok = append(tok, fmt.Sprintf("c:A%d", i))
+	}
+	w.Ops = append(w.Ops, idle, wait)
+	tok = append(tok, "i:0")
+	nm := func(i int) string {
+		if i == 0 {
+			return "base"
+		}
+		return fmt.Sprintf("A%d", i)
+	}
+	top, back := nm(na), nm(na-n)
+	w.Ops = append(w.Ops, Op{K: "undo", N: n, Name: back})
+	for i := na - 1; i >= na-n; i-- {
+		tok = append(tok, "u:"+nm(i))
+	}
+	switch idleKind {
+	case "idle":
+		w.Ops = append(w.Ops, idle, wait)
+		tok = append(tok, "i:0")
+	case "noidle":
+		w.Ops = append(w.Ops, skip(4294967295), idle, wait, skip(0))
+		tok = append(tok, "i:4294967295")
+	}
+	if rk == "crestart" {
+		w.Ops = append(w.Ops, Op{K: "crestart", Name: back, Parent: top})
+		tok = append(tok, "r")
+		for i := na - n + 1; i <= na; i++ {
+			tok = append(tok, "c:"+nm(i)) // re-applied by the recovery loop
+		}
+		w.CloseTok = tok
+	} else {
+		w.Ops = append(w.Ops, Op{K: "restart", Name: top})
+	}
+	w.Ops = append(w.Ops, blk(nm(na+1), top, 1, "f3"), idle, wait, closeOp)
+	return w
+}
+
 func miss4Workloads(r *vlib.Run, g *vlib.Rng) (ws []Workload) {
+	ws = append(ws,
+		undoOnly("undo-then-close", 1, 1, "none", "crestart"),
+		undoOnly("undo-then-close-lib", 2, 1, "noidle", "restart"),
+	)
+	if r.Thorough() {
+		ws = append(ws,
+			undoOnly("undo-two-then-close", 2, 2, "none", "crestart"),
+			undoOnly("undo-idle-then-close", 2, 1, "idle", "crestart"),
+			undoOnly("undo-noidle-then-close", 3, 2, "noidle", "crestart"),
+			undoOnly("undo-two-then-close-lib", 2, 2, "none", "restart"),
+		)
+	}
 	ws = append(ws,
 		flagRewrite("flag-invalid", 0, 2, 1, 2, 2, true, "crestart", ""),
 		flagRewrite("flag-trusted-files", rollMax, 2, 0, 1, 2, false, "", "restart"),
@@ -250,6 +332,10 @@ func miss4Workloads(r *vlib.Run, g *vlib.Rng) (ws []Workload) {
 		kind := []string{"undo", "undo", "reorg"}[g.Intn(3)]
 		n := 1 + g.Intn(2)
 		ws = append(ws, closeRelation(fmt.Sprintf("close-gen%d", i), kind, n, n+g.Intn(2), rks[1+g.Intn(2)]))
+		if r.Thorough() {
+			na := 1 + g.Intn(3)
+			ws = append(ws, undoOnly(fmt.Sprintf("undo-close-gen%d", i), na, 1+g.Intn(na), []string{"none", "idle", "noidle"}[g.Intn(3)], rks[1+g.Intn(2)]))
+		}
 	}
 	return
 }
@@ -377,12 +463,25 @@ func (h *Harness) idxTie(p *pending) {
 // same records (oracle op `idx` without changes; theorem idx_load_positions_exact says the model's load returns exactly these
 // positions).
 func (h *Harness) loadTie(p *pending, j *job) {
-	r := h.r
-	c := j.res
 	recs, ok := p.idx[j.hit.N]
-	if !ok || c.Open != "ok" || c.IdxRecs == nil {
+	if !ok {
 		return
 	}
+	if j.res.Open == "ok" && j.res.IdxRecs == nil {
+		h.r.TieFail("load-positions-missing:"+p.w.Shape, fmt.Sprintf("workload %s, directory captured at %s#%d (point %d): the fresh process re-opened the directory but did not report what LoadBlockIndex computed", p.w.Name, j.hit.Name, j.hit.Idx, j.hit.N),
+			map[string]interface{}{"case": Case{Workload: p.w.Name, Hit: j.hit.N, Mode: "client", Point: freePoint(p.w, j.hit, ""), PIdx: j.hit.Idx}})
+		return
+	}
+	if j.res.Open != "ok" {
+		return
+	}
+	cs := Case{Workload: p.w.Name, Hit: j.hit.N, Mode: "client", Point: freePoint(p.w, j.hit, ""), PIdx: j.hit.Idx}
+	h.loadTieRecs(p.w, cs, fmt.Sprintf("directory captured at %s#%d (point %d)", j.hit.Name, j.hit.Idx, j.hit.N), recs, j.res)
+}
+
+// loadTieRecs: recs = the COMPLETE 136-byte records of the blockchain.new the process c opened (a torn tail is not among them)
+func (h *Harness) loadTieRecs(w Workload, cs Case, where string, recs []idxRecord, c *ChildRes) {
+	r := h.r
 	want := map[string]string{}
 	var toks, ipos []string
 	for i, rec := range recs {
@@ -419,15 +518,18 @@ func (h *Harness) loadTie(p *pending, j *job) {
 	if c.IdxPos != int64(len(recs)*136) {
 		diff = append(diff, fmt.Sprintf("append position %d, the file holds %d complete records = %d bytes", c.IdxPos, len(recs), len(recs)*136))
 	}
-	r.Eval("load-positions/"+p.w.Shape, "")
-	cs := Case{Workload: p.w.Name, Hit: j.hit.N, Mode: "client", Point: freePoint(p.w, j.hit, ""), PIdx: j.hit.Idx}
+	if c.IdxHnd != int64(len(recs)*136) {
+		// BlockDB.writeOne appends with blockindx.Write: the record lands at the HANDLE's offset, whatever maxidxfilepos says
+		diff = append(diff, fmt.Sprintf("the handle blockchain.new is appended through stands at byte %d after the load, the file holds %d complete records = %d bytes (the next record would not start on a record boundary / would not follow the last complete record)", c.IdxHnd, len(recs), len(recs)*136))
+	}
+	r.Eval("load-positions/"+w.Shape, "")
 	if len(diff) > 0 {
 		sort.Strings(diff)
 		if len(diff) > 6 {
 			diff = append(diff[:6], fmt.Sprintf("… %d more", len(diff)-6))
 		}
-		r.TieFail("load-positions:"+p.w.Shape, fmt.Sprintf("workload %s, directory captured at %s#%d (point %d): the positions BlockDB.LoadBlockIndex computed are not the positions of the records in blockchain.new (the next block is appended / the next flag is rewritten at them): %s",
-			p.w.Name, j.hit.Name, j.hit.Idx, j.hit.N, strings.Join(diff, "; ")), map[string]interface{}{"case": cs, "ops": p.w.Ops})
+		r.TieFail("load-positions:"+w.Shape, fmt.Sprintf("workload %s, %s: the positions BlockDB.LoadBlockIndex computed are not the positions of the records in blockchain.new (the next block is appended / the next flag is rewritten at them): %s",
+			w.Name, where, strings.Join(diff, "; ")), map[string]interface{}{"case": cs, "ops": w.Ops})
 		return
 	}
 	// the model's load of the same records
@@ -449,8 +551,8 @@ func (h *Harness) loadTie(p *pending, j *job) {
 		r.Hit("load-positions-tie:agrees")
 		return
 	}
-	r.TieFail("model-index-load:"+p.w.Shape, fmt.Sprintf("workload %s, directory captured at %s#%d (point %d): LoadBlockIndex computed append position %d and the record positions [%s]; the index model's load gives %q",
-		p.w.Name, j.hit.Name, j.hit.Idx, j.hit.N, c.IdxPos, strings.Join(ipos, " "), ans), map[string]interface{}{"case": cs, "query": toks})
+	r.TieFail("model-index-load:"+w.Shape, fmt.Sprintf("workload %s, %s: LoadBlockIndex computed append position %d and the record positions [%s]; the index model's load gives %q",
+		w.Name, where, c.IdxPos, strings.Join(ipos, " "), ans), map[string]interface{}{"case": cs, "query": toks})
 }
 
 // closeTie (close-relation workloads): the block and height the node had before every clean shutdown inside the history and
@@ -473,6 +575,7 @@ func (h *Harness) closeTie(p *pending) {
 		if k := strings.IndexByte(t, ':'); k > 0 && (t[0] == 'c' || t[0] == 'u') {
 			id, ok := ids[t[k+1:]]
 			if !ok {
+				r.TieFail("model-close-unmapped:"+w.Shape, fmt.Sprintf("workload %s: the close history names block %q which the run did not build", w.Name, t[k+1:]), map[string]interface{}{"case": Case{Workload: w.Name, Mode: "closed:none"}})
 				return
 			}
 			t = fmt.Sprintf("%s:%d", t[:k], id)
@@ -484,6 +587,7 @@ func (h *Harness) closeTie(p *pending) {
 		a, ok1 := byHash[pr[0].Tip]
 		b, ok2 := byHash[pr[1].Tip]
 		if !ok1 || !ok2 {
+			r.TieFail("model-close-unmapped:"+w.Shape, fmt.Sprintf("workload %s: a clean shutdown inside the history was taken / came up at a block the workload does not know (before: %s, after: %s)", w.Name, stateStr(pr[0]), stateStr(pr[1])), map[string]interface{}{"case": Case{Workload: w.Name, Mode: "closed:none"}})
 			return
 		}
 		real = append(real, fmt.Sprintf("%d:%d:%d:%d", a, pr[0].Height, b, pr[1].Height))
